@@ -57,8 +57,17 @@ def enc_g(r):
 
 
 def ballot_case(cands, r, w, l, E, cid=CID):
+    # the audit-side vote dict {candidate: rank} in one of three KEY orders (a dict's insertion order carries no
+    # meaning: the Dominion reader inserts marks in file order, hand-made dicts are often in candidate order):
+    # preference order, candidate-name order, reversed preference order -- chosen by a hash of the case
+    a = enc_a(r)
+    pick = (sum(ord(ch) for c in list(r) + list(E) + [w, l] for ch in str(c)) + len(r)) % 3
+    if pick == 1:
+        a = sorted(a, key=lambda p: str(p[0]))
+    elif pick == 2:
+        a = a[::-1]
     return {"k": "ballot", "cid": cid, "cands": list(cands), "w": w, "l": l, "E": list(E),
-            "r": list(r), "a": enc_a(r), "g": enc_g(r)}
+            "r": list(r), "a": a, "g": enc_g(r)}
 
 
 def raw_case(cands, a, g, w, l, E, cid=CID):
